@@ -344,6 +344,13 @@ func c07(c *core.Ctx) {
 		c.EndRule()
 	}
 	_ = fmt.Sprint
+
+	// ---------------------------------------------------------------- R5, R6 (shared)
+	// "the decoder yields exactly the framed messages that were encoded": a frame of any size, zero included, is
+	// decoded into the destination (C01/R3: a receive reports success only after filling the destination), and on
+	// single-request methods the server looks for a second frame where the messages come from (C08/R3).
+	c.Borrow("C01", map[string]string{"R3": "R5"}, c01)
+	c.Borrow("C08", map[string]string{"R3": "R6"}, c08)
 }
 
 func constInt64(cst *types.Const) (int64, bool) {
@@ -605,6 +612,28 @@ func c07BufferProvenance(c *core.Ctx, fns []*ssa.Function) {
 					_, f, isF := core.FieldOf(arg)
 					if !isF || f != "Body" {
 						bad = "ReadAll of something other than the HTTP body itself (a wrapped/limited reader ends early without error: a truncated frame would be decoded as a message)"
+					}
+					// ... and its error has been found nil where the bytes are handed over (the error may travel through
+					// a captured variable when the read runs on another goroutine; an error kept in a variable of its
+					// own never reaches that test)
+					rcall := call
+					errNil := func(f core.Fact) bool {
+						return f.Op == token.EQL && core.IsNilConst(f.Y) && core.OriginIs(f.X, func(o2 ssa.Value) bool {
+							cr, i2, ok := core.CallResult(o2)
+							return ok && cr == rcall && i2 == 1
+						})
+					}
+					guarded := core.GuardedBy(in, errNil)
+					// a decode callback built after the test: the literal's creation site is what the test dominates
+					for f := in.Parent(); !guarded && f != nil && f.Parent() != nil; f = f.Parent() {
+						core.Instrs(f.Parent(), func(pi ssa.Instruction) {
+							if mc, isMC := pi.(*ssa.MakeClosure); isMC && mc.Fn == f && core.GuardedBy(mc, errNil) {
+								guarded = true
+							}
+						})
+					}
+					if !guarded {
+						bad = "a ReadAll whose error has not been found nil on the way here (the read error is lost or shadowed): a body cut short would be decoded as the message"
 					}
 				case idx == 0 && ci.Name == "Marshal":
 				case idx == 0 && ci.Name == "DecodeString":
